@@ -226,7 +226,7 @@ pub fn run(report: &Report, budget: &Budget) {
     // Every state of the history graph
     let depth = if thorough { 3 } else { 2 };
     let hb = Budget::new(if thorough { 500 } else { 15 });
-    let st = crate::hist::explore(report, &hb, "C13", depth, thorough, thorough, &hist_oracle, None, None);
+    let st = crate::hist::explore(report, &hb, "C13", depth, thorough, thorough, true, &hist_oracle, None, None);
     crate::hist::write_stats(report, &st, depth);
     // Every archive produced by the C01 sweeps (every option point)
     let f = |c: &crate::c01::Case, t: &Tree, scratch: &crate::util::Scratch| judge_case(t, &c.opts, &c.tag, scratch);
